@@ -90,7 +90,15 @@ def gen_case(ctx, g):
     if r.random() < 0.3:
         where = ('ne', ('fld', 'a', 0), ('lit', 'm')) if r.random() < 0.7 else ('lt', ('NR',), ('lit', r.randint(0, 6)))
     top = r.randint(0, 3) if r.random() < 0.2 else None
-    qa = {'kind': ('select', items), 'where': where, 'join': None, 'group': group, 'top': top, 'top_spelling': r.choice(['top', 'limit'])}
+    B, join = None, None
+    if r.random() < 0.12:
+        # aggregates over a JOIN: every (a, b) pair is one record of the group (inner / left / strict left; a b-field as argument sometimes)
+        nb = r.randint(1, 2)
+        B = g.rect_table(r.randint(0, 4), nb, ['k', 'm', 'k2', '1'])
+        join = g.join({'na': ngroup, 'nb': nb}, nkeys=1)
+        if join['kind'] != 'left' and r.random() < 0.4:
+            items.append(('agg', 'COUNT', 'COUNT', ('fld', 'b', 0)))
+    qa = {'kind': ('select', items), 'where': where, 'join': join, 'group': group, 'top': top, 'top_spelling': r.choice(['top', 'limit'])}
     if r.random() < 0.05:
         qa['distinct'] = 1            # misuse: DISTINCT in an aggregate query -> parsing error at the first passing record
     if r.random() < 0.04 and group is None:
@@ -99,7 +107,7 @@ def gen_case(ctx, g):
         # builtin sum('') == 0: lower-case sum keeps its builtin meaning on an (empty) iterable; outside the modelled fragment
         A = [[('x' if c == '' else c) for c in row] for row in A]
     # COUNT(*) is only rewritten at the start of the select list or after a comma: always true for a rendered item
-    return ec.make_case(r, qa, A, None, also_table=True, tags=['approx'] if approx else [])
+    return ec.make_case(r, qa, A, B, also_table=True, tags=['approx'] if approx else [])
 
 
 def exhaustive_cases(ctx, limit):
